@@ -1007,7 +1007,7 @@ def run(rep):
             stage_system(rep, rng, cs)
     finally:
         shutil.rmtree(root, ignore_errors=True)
-    if dis and not found:
+    if dis and not rep.n_with_input:
         i, call, iv, mv = dis[0]
         rep.fail('W:%s - model and implementation disagree (%d cases), e.g. %r: impl %r, model %r' % (
             call[0], len(dis), call[1], iv, mv),
